@@ -22,7 +22,7 @@ CHECKS = {
         "technique": "bounded-exhaustive program enumeration on the real renderer vs reference interpreter (explicit-state, all programs <= N nodes)",
         "text": "Every component program of the slot/fill profile with <= N nodes (quick: N<=4 full profile + N=5 core profile; thorough: N<=5 full + N=6 core) "
                 "is rendered by the real library in both context_behavior modes, through the component tag, the dynamic component and Component.render(slots=...), "
-                "and output / error class / is_filled probes are compared with a denotational reference interpreter on every program; plus a structured three-level family (page -> a -> b: fills at both levels, pass-through slots, default= alias, nested/same-named/default-flagged slots; 2304 programs of 8-13 nodes).",
+                "and output / error class / is_filled probes are compared with a denotational reference interpreter on every program; plus a structured three-level family (page -> a -> b: fills at both levels, pass-through slots, default= alias, nested/same-named/default-flagged slots; 2304 programs of 8-13 nodes). The three-level family is rendered again with unrelated Python-API renders (succeeding / failing and caught) inside every component's on_render_before / on_render_after hook: the page must render as without them.",
         "note": "bounded program size; variables scope-independent by construction (scoping is C03); slots only inside component templates; acyclic component graphs; reference interpreter encodes the statement's lexical slot resolution",
     },
     "C02": {
@@ -40,7 +40,7 @@ CHECKS = {
         "technique": "exhaustive enumeration of a scoping family (all name-collision assignments x structure) on the real renderer vs reference scoping model, 2-run non-interference",
         "text": "The unit page -> outer component -> inner component with a slot is enumerated over all assignments of the names {x,y} to 8 binding roles (page variable, with around either tag, outer/inner data, for/with between tag and fill, "
                 "slot data, with around the slot) x kwargs passing x only flags x body kinds x data=/default= aliases x placement depth, each under two page contexts; every position reads every name and each value encodes the role that bound it. "
-                "Outputs are compared with the reference interpreter that implements the statement's isolated/django rules; the caller's Context must be unchanged.",
+                "Outputs are compared with the reference interpreter that implements the statement's isolated/django rules; the caller's Context must be unchanged. The family includes two nested loops around the unit with the outer loop binding a name everybody reads.",
         "note": "six corners the statement leaves open are kept out of the generator (DESIGN C03 i-vi); two names, one slot, nesting depth 2-3",
     },
     "C04": {
@@ -59,7 +59,7 @@ CHECKS = {
         "text": "Every program of the provide profile (provide k|m at page level, in component templates, around slots, in fills, in loops, nested/shadowing; "
                 "consumers with and without default) with <= N nodes (quick: N<=4 wide profile + N=5 narrow; thorough: N<=5 / 6) is rendered by the real library in both modes and compared with a "
                 "provider-chain reference model (output, KeyError class, injected field names, provided kwargs never template variables, empty provide registries after success); "
-                "plus all render histories <= 3 over 6 representative pages (each render equals its solo result).",
+                "plus all render histories <= 3 over 6 representative pages (each render equals its solo result). The provider family is also rendered with unrelated Python-API renders (own provide; succeeding / failing and caught) inside every component's hooks: inject results and registries must not change.",
         "note": "provide tags between a component tag and its fill are outside the profile; bounded program size; single thread (threads are C07)",
     },
     "C06": {
@@ -70,7 +70,7 @@ CHECKS = {
         "text": "For every program of the mixed profile with <= N nodes and every index i of a user-code callback invocation during its render (get_context_data, on_render_before/after, "
                 "Python slot functions, a harness tag at every nodelist position; inject of a missing key as natural fault), the run in which invocation i raises is executed on the real library; "
                 "the escaping exception must be the injected object, all six render registries empty, caller context and metadata stacks restored, sentinels dead, a follow-up render pristine, "
-                "repetition growth-free; plus all ok/fail histories <= 3 over 4 programs.",
+                "repetition growth-free; plus all ok/fail histories <= 3 over 4 programs. Programs with <= 3 nodes go through the whole fault enumeration again with an unrelated finished / failed-and-caught render nested inside every hook.",
         "note": "fault sites are harness callbacks (built-in tag failures represented by the harness tag); liveness via weakref + gc.collect(); bounded program size",
     },
     "C07": {
@@ -113,7 +113,7 @@ CHECKS = {
         "technique": "bounded-exhaustive signature x call-sequence enumeration against Python's own call binding (differential twin)",
         "text": "Every render() signature up to 5 parameters (positional-only / positional-or-keyword / *args / keyword-only / **kwargs, with and without defaults; 1085 signatures) is crossed with every "
                 "argument sequence up to length 4-5 over matching, duplicate, unknown, non-identifier, keyword and spread-produced keys. Each pair runs on the real tag machinery on both validation paths "
-                "(and through @template_tag + Template, and with the built-in tags' signatures); acceptance and complete bindings are compared with Python executing the literal equivalent call on the same function.",
+                "(and through @template_tag + Template, and with the built-in tags' signatures); acceptance and complete bindings are compared with Python executing the literal equivalent call on the same function. Part E: `...var` spreads whose operand is a variable of 6 mapping and 5 iterable types, against Python's f(**m) / f(*it).",
         "note": "integer literal values; list spread after a plain keyword accepted under either reading; **kwargs order and messages not compared; fallback path reached via a callable without __code__; thorough covers L=5 only for signatures <= 3 params",
     },
     "C12": {
@@ -129,7 +129,7 @@ CHECKS = {
         "design_ref": "DESIGN.md 2.4, 3/C13",
         "technique": "bounded-exhaustive inputs on the real tags vs merge / escape-once / refuse-or-emit models + html.parser round trip",
         "text": "All (defaults, attrs, <= 2 extras) assignments over 17 values for 5 keys, all writing forms, key pairs and hostile names are rendered through {% html_attrs %} and parsed back with html.parser; "
-                "all slot-content kinds x re-pass chains x escape flags, and all js/css strings of <= 3 (thorough <= 4) end-tag look-alike tokens, are checked against the merge, escape-exactly-once and refuse-or-emit models.",
+                "all slot-content kinds x re-pass chains x escape flags, and all js/css strings of <= 3 (thorough <= 4) end-tag look-alike tokens, are checked against the merge, escape-exactly-once and refuse-or-emit models. After every html_attrs render the mappings handed to the tag must be unchanged.",
         "note": "values reach the tag via context variables; appends involving None/True/False, the safe flag after an append and attribute order are agnostic; html.parser is the HTML parser of record",
     },
     "C14": {
@@ -139,7 +139,7 @@ CHECKS = {
         "text": "Every program of the element profile (text, for, <div> elements, slot, component tags with fills, two generated components echoing Component.id) "
                 "with <= N nodes (quick: N<=4 both modes + N=5 loop-free django; thorough: N<=5 / 6) is rendered by the real library; the final HTML is parsed and each element's "
                 "set of data-djc-id-* attributes must equal the set of instances for which the reference interpreter says it is a root; ids distinct and equal to Component.id. "
-                "Depth families chain(d)/nest(d) up to d=200 (quick) / 2000 (thorough).",
+                "Depth families chain(d)/nest(d) up to d=200 (quick) / 2000 (thorough). The roots family is also rendered with unrelated side renders (ok / failing at 3 points) inside every hook, and the depth families also with the `only` flag.",
         "note": "html.parser trusted; attribute insertion itself happens in the external djc_core_html_parser wheel (not part of the repository)",
     },
     "C15": {
@@ -148,7 +148,7 @@ CHECKS = {
         "technique": "explicit-state BFS to fixpoint over real ComponentRegistry/Library histories vs dict model + tag-table invariant",
         "text": "All register/unregister/get/all/clear histories of every length over 3-4 names x 3 classes are covered by BFS to a fixpoint on real registries for the default, shorthand and a tag-sharing custom formatter, on empty/pre-loaded, "
                 "unprotected/protected private libraries, with one registry, two independent registries and two registries sharing a library (36 configurations); each transition is compared with a dict model and the library tag table; "
-                "all unmerged sequences <= 4 (quick) / <= 5 (thorough) cross-check the state merging; every reachable single-registry state is also probed through a compiled template. One open known finding (shared library).",
+                "all unmerged sequences <= 4 (quick) / <= 5 (thorough) cross-check the state merging; every reachable single-registry state is also probed through a compiled template. One open known finding (shared library). Four single-registry configurations are explored a second time through the module-level @register decorator.",
         "note": "single-threaded; formatter and protection fixed per history; shared-library clause read over all registries attached to the library; classes with unique import paths",
     },
     "C16": {
@@ -157,7 +157,7 @@ CHECKS = {
         "technique": "bounded-exhaustive class-hierarchy x access-history enumeration on real classes (BFS to fixpoint over reads) vs recursive union model",
         "text": "All component hierarchies up to 4 classes over the full Media / extend alphabet (cut alphabets up to 6) are built as fresh real classes; all (first-)access orders of .media are read and for n<=3 a BFS to a "
                 "fixpoint covers every history of .media/.template/.js/.css/*_file reads on classes and instances. Every read is compared with a recursive union model, with order-independence across access orders, "
-                "with subsequence-consistency of declared lists and with the nearest-definer pair rule.",
+                "with subsequence-consistency of declared lists and with the nearest-definer pair rule. Part D: parent / child / grandchild spread over two directories with same-named files, every ordered choice of the first reads.",
         "note": "one directory per hierarchy, plain-string paths; multiple-inheritance classes without own Media accepted under either reading; n=5,6 restricted to single-sink shapes; history merging cross-checked by an unmerged depth-2 search",
     },
     "C17": {
@@ -186,7 +186,7 @@ CHECKS["C19"] = {
     "technique": "explicit-state BFS over render / pre-render / eviction histories with every announced URL fetched through django.test.Client + exhaustive request product",
     "text": "All histories of every length over 21 operations (document/fragment renders of 5 classes via Component.render, template + render_dependencies and the pre-rendered-slot flow; clear, single-key eviction, cache re-creation) are covered "
             "by BFS to a fixpoint for the built-in and a configured media cache; each announced URL must return 200 with that class's code and content type, every other known URL 404 or the right code; unmerged sequences <= 3 / <= 4 cross-check the merging; "
-            "100 asset-shape renders and a 7000-request product of hashes x kinds x input hashes x methods decide the 404/405/never-5xx clause.",
+            "100 asset-shape renders and a 7000-request product of hashes x kinds x input hashes x methods decide the 404/405/never-5xx clause. With the built-in cache a URL must stay servable until its key is evicted; part lifecycle_and_names: an older class with the same import path is dropped and collected inside every history <= 4 ops, and pairs of related class names (non-ASCII letters, case, digits) are rendered in both orders.",
     "note": "single-threaded; locmem caches; evictions only between operations; classes alive with unique identifier names; a raising render is not judged; vars-file bodies not asserted",
 }
 
